@@ -20,8 +20,9 @@ Programs ==
   \cup {<<IInt(1), IList(<<IInt(2), IInt(3), IInt(4)>>), I("INTEGER.+")>>}
   \cup {<<IList(<<IInt(3), I("INDEX.DEFINE"), I("EXEC.LOOP"), I("NOOP")>>)>>}
 
-Init == /\ \E p \in Programs, lim \in (-1)..MaxLimit, cap \in 0..MaxCap :
-             st = [EmptyState EXCEPT !.exec = p, !.code = <<IId("old")>>,
+\* the CODE stack may already hold the program (a second run on the same state)
+Init == /\ \E p \in Programs, lim \in (-1)..MaxLimit, cap \in 0..MaxCap, again \in BOOLEAN :
+             st = [EmptyState EXCEPT !.exec = p, !.code = (IF again THEN p ELSE <<>>) \o <<IId("old")>>,
                                      !.cfg = [@ EXCEPT !.push_limit = lim, !.growth_cap = cap]]
         /\ init = st /\ rl = RunInit /\ hist = 0
 Start == /\ rl.pc = "start"
